@@ -98,6 +98,12 @@ class _BlockResolver:
         else:
             # no need to resolve, just check
             self._check_type(obj, attr, blk, block_type)
+            try:
+                known = self._resolve_function(blk.name)
+            except KeyError:
+                known = None
+            if known is not blk:
+                raise ValueError(f"{blk} is not in the current circuit")
 
     def resolve(self) -> None:
         """
